@@ -117,6 +117,63 @@ func (e *Exec) externalEnv(fr *Frame, st State, fn *ssa.Function, args []Val, po
 			{st: okS.branch(c.Fresh("dial.ok", Bool)), ret: Val{obj, c.Const(64, 0), c.Const(64, 0)}},
 			{st: s3, ret: Val{c.Const(64, 0), ev[0], ev[1]}},
 		}, true
+	case "(*net.UDPConn).WriteToUDP", "(*net.UDPConn).Write", "(*net.TCPConn).Write":
+		b := args[1]
+		st = e.netWrite(st, b)
+		n := c.Fresh("nwritten", BV(64))
+		err := e.freshVal(fn.Signature.Results().At(1).Type(), "writeerr")
+		st = st.assume(c.Imp(c.Eq(err[0], c.Const(64, 0)), c.And(c.Eq(err[1], c.Const(64, 0)), c.Eq(n, b[1]))))
+		return []Outcome{{st: st, ret: Val{n, err[0], err[1]}}}, true
+	case "(*net.UDPConn).ReadFromUDP":
+		// assumed: 0 <= n <= len(b); b[0:n] holds the datagram; a non-nil sender on success
+		b := args[1]
+		n := c.Fresh("nread", BV(64))
+		st = st.assume(c.Ule(n, b[1]))
+		arr := c.Fresh("datagram", Sort{KArr, 8})
+		st.h[0] = st.h[0].push(HeapLayer{kind: lHavoc, addr: b[0], n: n, arr: arr})
+		AT := fn.Signature.Results().At(1).Type()
+		addr := e.freshVal(AT, "sender")
+		st = e.assumeValid(st, AT, addr, true)
+		err := e.freshVal(fn.Signature.Results().At(2).Type(), "readerr")
+		st = st.assume(c.Imp(c.Eq(err[0], c.Const(64, 0)), c.And(c.Eq(err[1], c.Const(64, 0)), c.Ne(addr[0], c.Const(64, 0)))))
+		st = e.ghostInc(st, "ndatagram")
+		e.assumed["assumed contract: (*net.UDPConn).ReadFromUDP returns 0 <= n <= len(b) and a non-nil sender on success"] = true
+		return []Outcome{{st: st, ret: Val{n, addr[0], err[0], err[1]}}}, true
+	case "(net.IP).Equal", "(net.IP).IsMulticast":
+		return []Outcome{{st: st, ret: Val{c.Fresh("ipcmp", Bool)}}}, true
+	case "bufio.NewReader":
+		s2, obj := e.alloc(st, c.Const(64, 16), "bufio")
+		s2 = s2.setGhost("stream.pos", e.ghost(st, "stream.pos", BV(64)))
+		return []Outcome{{st: s2, ret: Val{obj}}}, true
+	case "(*bufio.Reader).Peek":
+		// assumed: the next n bytes of the stream (not consumed) or an error
+		n := args[1][0]
+		s2, a := e.alloc(st, n, "peek")
+		arr := c.Fresh("peeked", Sort{KArr, 8})
+		s2.h[0] = s2.h[0].push(HeapLayer{kind: lHavoc, addr: a, n: n, arr: arr})
+		s3, ev := e.freshError(st, "peek")
+		e.assumed["assumed contract: bufio.Reader.Peek / io.ReadFull behave as a byte stream (ghost position stream.pos)"] = true
+		return []Outcome{
+			{st: s2.branch(c.Fresh("peek.ok", Bool)), ret: Val{a, n, n, c.Const(64, 0), c.Const(64, 0)}},
+			{st: s3, ret: Val{c.Const(64, 0), c.Const(64, 0), c.Const(64, 0), ev[0], ev[1]}},
+		}, true
+	case "io.ReadFull":
+		// assumed: err == nil <=> exactly len(buf) bytes were consumed and stored
+		b := args[1]
+		arr := c.Fresh("streamdata", Sort{KArr, 8})
+		okS := st
+		okS.h[0] = okS.h[0].push(HeapLayer{kind: lHavoc, addr: b[0], n: b[1], arr: arr})
+		okS = okS.setGhost("stream.pos", c.Add(e.ghost(st, "stream.pos", BV(64)), b[1]))
+		n := c.Fresh("npartial", BV(64))
+		badS := st.assume(c.Ult(n, b[1]))
+		arr2 := c.Fresh("streamdata", Sort{KArr, 8})
+		badS.h[0] = badS.h[0].push(HeapLayer{kind: lHavoc, addr: b[0], n: n, arr: arr2})
+		badS = badS.setGhost("stream.pos", c.Add(e.ghost(st, "stream.pos", BV(64)), n))
+		badS, ev := e.freshError(badS, "readfull")
+		return []Outcome{
+			{st: okS.branch(c.Fresh("readfull.ok", Bool)), ret: Val{b[1], c.Const(64, 0), c.Const(64, 0)}},
+			{st: badS, ret: Val{n, ev[0], ev[1]}},
+		}, true
 	case "(*sync.Mutex).Lock":
 		mu := args[0][0]
 		st = e.oblige(st, fr.fn, "lock", "not-held", pos, c.Not(e.ghost(st, gkey("held", mu), Bool)))
@@ -252,6 +309,24 @@ func (e *Exec) socketInvoke(fr *Frame, st State, cc *ssa.CallCommon, recv Val, a
 
 func (e *Exec) externalInvokeEnv(fr *Frame, st State, cc *ssa.CallCommon, recv Val, args []Val, pos token.Pos) ([]Outcome, bool) {
 	switch cc.Method.Name() {
+	case "Write":
+		// net.Conn.Write: one write of the whole slice (or an error)
+		c := e.c
+		b := args[0]
+		st = e.netWrite(st, b)
+		n := c.Fresh("nwritten", BV(64))
+		err := e.freshVal(cc.Signature().Results().At(1).Type(), "writeerr")
+		st = st.assume(c.Imp(c.Eq(err[0], c.Const(64, 0)), c.And(c.Eq(err[1], c.Const(64, 0)), c.Eq(n, b[1]))))
+		return []Outcome{{st: st, ret: Val{n, err[0], err[1]}}}, true
+	case "Close":
+		if cc.Signature().Results().Len() == 1 {
+			st = e.ghostInc(st, "nconnclose")
+			err := e.freshVal(cc.Signature().Results().At(0).Type(), "closeerr")
+			return []Outcome{{st: st, ret: err}}, true
+		}
+	case "LocalAddr":
+		r := e.freshVal(cc.Signature().Results().At(0).Type(), "localaddr")
+		return []Outcome{{st: st, ret: r}}, true
 	case "Error", "String", "Network":
 		if cc.Method.Type().(*types.Signature).Params().Len() == 0 {
 			s, v := e.freshString(st, "msg")
@@ -337,7 +412,7 @@ func (e *Exec) ghost(st State, name string, sort Sort) *Term {
 }
 
 var counterKinds = map[string]bool{"nsend": true, "nsent": true, "nrecv": true, "nclose": true, "nspawn": true,
-	"nsocksend": true, "nsockclose": true, "ndial": true, "ndialfail": true, "llen": true, "lpush": true, "lpopfront": true, "lpopback": true, "nticker": true, "nafter": true, "nafterfunc": true, "ntickerstop": true, "wg": true, "nclosesock": true}
+	"nsocksend": true, "nsockclose": true, "ndial": true, "ndialfail": true, "nwrite": true, "ndatagram": true, "nconnclose": true, "stream.pos": true, "llen": true, "lpush": true, "lpopfront": true, "lpopback": true, "nticker": true, "nafter": true, "nafterfunc": true, "ntickerstop": true, "wg": true, "nclosesock": true}
 
 // ghostOfFresh: the ghost variable belongs to an object created during this execution.
 func (e *Exec) ghostOfFresh(name string) bool {
@@ -692,3 +767,12 @@ func (e *Exec) maybe(v Val) *Term {
 }
 
 func (fr *Frame) rootEntry(e *Exec) State { return e.rootEntrySt }
+
+// netWrite records a write to the network in the ghost log.
+func (e *Exec) netWrite(st State, b Val) State {
+	st = e.ghostInc(st, "nwrite")
+	st = st.setGhost("lastwrite.base", b[0])
+	st = st.setGhost("lastwrite.len", b[1])
+	e.assumed["assumed contract: one Write/WriteToUDP call hands the slice to the network as one unit"] = true
+	return st
+}
